@@ -15,7 +15,7 @@ ASSUMPTIONS = ["numeric equality of bank deltas follows from the wiring plus ban
 TECHNIQUE = "static analysis: same-value provenance at both ends of each transfer (cut-point origins), field-agreement tables, rounding classes"
 LEVEL_TEXT = "Structural obligations, exhaustive over CFG paths of Swap, ExecuteSwapOperations, perform_swap and the fee helpers."
 LEVEL_NOTE = "Not decided: bank deltas as numbers; accumulate-vs-overwrite semantics of containers."
-FLOORS = {"PROV-reserve-update": 4, "PROV-swap-outflow": 6, "AGREE-fees": 12, "AGREE-swap-result": 8}
+FLOORS = {"PROV-reserve-update": 4, "PROV-swap-outflow": 6, "AGREE-fees": 6}
 
 
 def run(W, chk):
@@ -23,13 +23,17 @@ def run(W, chk):
     A = sc.swap_conservation(W, chk, ("ExecuteSwapOperations",), r"^(info\.funds\[\*\]\.amount|Call\(helpers::compute_swap\)\.return_amount)$",
                              {"info.sender", "msg.ExecuteSwapOperations.receiver"},
                              "msg.ExecuteSwapOperations.operations[*].MantraSwap.token_out_denom", "Router")
-    # router: each hop's offer is the paid-in amount or the previous hop's return (exact)
-    for e in A.calls_id(r"swap::perform_swap::perform_swap$"):
-        off = vfield(e.extra["dargs"][1], "amount")
-        m = opmap(off)
-        chk.expect(set(m) == {"info.funds[*].amount", sc.C + ".return_amount"} and all(not ops for ops in m.values()), "PROV-router-chain", "hop offer",
+    # router: each hop's offer is the paid-in amount or the previous hop's return (exact), on the operation's pool
+    hops = sc.hop_offers(A)
+    chk.expect(len(hops) == 1, "PROV-router-chain", "anchor", "one swap computation per hop", "%d swap computation sites in the router" % len(hops), A.entry)
+    for (e, m, da) in hops:
+        chk.expect(set(m) == {"info.funds[*].amount", sc.N.C + ".return_amount"} and all(not ops for ops in m.values()), "PROV-router-chain", "hop offer",
                    "hop k offers exactly must_pay amount or the previous hop's return", "hop offer <- %s" % {k: sorted(v) for k, v in m.items()}, where(e))
-        chk.expect(exact_origins(e.extra["dargs"][3]) == {"msg.ExecuteSwapOperations.operations[*].MantraSwap.pool_identifier"}, "PROV-router-chain", "hop pool",
-                   "on the operation's pool", "hop pool <- %s" % sorted(all_origins(e.extra["dargs"][3])), where(e))
+    keys = set()
+    for r in A.reads() + A.writes():
+        if r.extra.get("item") == "POOLS":
+            keys |= all_origins(r.extra.get("key", EMPTY))
+    chk.expect(keys <= {"msg.ExecuteSwapOperations.operations[*].MantraSwap.pool_identifier", "Store(POOLS).pool_identifier"} and bool(keys), "PROV-router-chain", "hop pool",
+               "on the operation's pool", "router touches pools %s" % sorted(keys), A.entry)
     sc.fee_internals(W, chk)
     sc.swap_result_wiring(W, chk)
